@@ -3,9 +3,12 @@
 use crate::core::{Case, Ctx, Stats, Tier};
 use crate::runner::RunOpts;
 
+pub mod crash;
 pub mod histories;
+pub mod pairs;
 pub mod parsing;
 pub mod steps;
+pub mod tables;
 
 pub trait Check: Sync {
     fn id(&self) -> &'static str;
@@ -26,6 +29,7 @@ pub trait Check: Sync {
 
 pub fn all() -> Vec<&'static dyn Check> {
     vec![
+        &crash::C01,
         &parsing::C02,
         &parsing::C03,
         &steps::C04,
@@ -34,14 +38,17 @@ pub fn all() -> Vec<&'static dyn Check> {
         &steps::C07,
         &steps::C08,
         &histories::C09,
+        &pairs::C10,
         &parsing::C11,
         &steps::C12,
         &steps::C13,
         &steps::C14,
+        &pairs::C15,
         &steps::C16,
         &histories::C17,
         &steps::C18,
         &parsing::C19,
+        &tables::C20,
     ]
 }
 
